@@ -117,9 +117,19 @@ func evalLit(l Lit, env map[string]int64, assume map[string]bool) (bool, bool) {
 	return v, true
 }
 
+// predAliases: other access paths to a term of the domain (the same object reached through a
+// back pointer, e.g. a context's c.s.pipes for the socket's s.pipes), set by a rule for the
+// duration of one comparison.
+var predAliases map[string]string
+
 func evalInt(v ssa.Value, env map[string]int64) (int64, bool) {
 	if k, ok := ConstInt(v); ok {
 		return k, true
+	}
+	if a, ok := predAliases[Desc(v)]; ok {
+		if x, ok := env[a]; ok {
+			return x, true
+		}
 	}
 	if IsNilConst(v) {
 		return 0, true // a nil pointer/interface: 0 in a domain where the term is 0 (nil) or not
